@@ -112,6 +112,8 @@ def scenario(ctx, rng, tmpdir):
     extra_efi = variant in ('plain', 'efi') and rng.random() < 0.25
     share_boot = variant != 'plain' and rng.random() < 0.15
     pre_step = rng.choice([None, None, None, 'write', 'force'])
+    extra_bios = rng.choice([None, None, None, 'ZBOOT', 'ABOOT'])
+    namesets = rng.choice([('EFIBOOT', 'MACBOOT'), ('EFIBOOT', 'MACBOOT'), ('ZEFI', 'AMAC'), ('EFI2', 'EFI1'), ('ZZ', 'AA')])
 
     def build(with_hybrid):
         with isoapi.frozen_time():
@@ -128,7 +130,9 @@ def scenario(ctx, rng, tmpdir):
                     names['efi'] = names['boot']       # the EFI entry uses the BIOS boot file itself
                     continue
                 data = isoapi.isolinux_boot(n, {'boot': 0x11, 'efi': 0x22, 'mac': 0x33}[key])
-                nm = '/%s.;1' % {'boot': 'ISOLINUX', 'efi': 'EFIBOOT', 'mac': 'MACBOOT'}[key]
+                # the order of the file names is independent of the order of the catalog entries (a hybrid describes the
+                # FIRST EFI section with partition 2 and the SECOND with partition 3, whatever the files are called)
+                nm = '/%s.;1' % {'boot': 'ISOLINUX', 'efi': namesets[0], 'mac': namesets[1]}[key]
                 kw = {'iso_path': nm}
                 if cfg.get('rr'):
                     kw['rr_name'] = key
@@ -146,6 +150,14 @@ def scenario(ctx, rng, tmpdir):
                     if lsz[key] is not None:
                         k2['boot_load_size'] = lsz[key]
                     iso.add_eltorito(names[key][0], **k2)
+            if extra_bios:
+                # a second BIOS (platform 0) entry in its own section: the MBR still describes the DEFAULT entry
+                data = isoapi.isolinux_boot(2048, 0x44)
+                kw = {'iso_path': '/%s.;1' % extra_bios}
+                if cfg.get('rr'):
+                    kw['rr_name'] = extra_bios.lower()
+                iso.add_fp(io.BytesIO(data), len(data), **kw)
+                iso.add_eltorito('/%s.;1' % extra_bios, platform_id=0, boot_load_size=4)
             # edits that move the boot files before mastering
             sh = s.shadow
             for _ in range(r2.choice([0, 3])):
@@ -357,6 +369,33 @@ def second_generation(ctx, img2, hy, s_geo, h_geo, variant, viol):
     if (eh, es, ec, off, psize) != (m[3], m[4], m[5], hy['part_offset'], m[6]):
         viol('C12.gen2/mbr-geometry', 'second generation: active partition end/offset/size %s, expected %s for the %d-byte image' % (
             (eh, es, ec, off, psize), (m[3], m[4], m[5], hy['part_offset'], m[6]), len(img2)))
+    if variant != 'plain' and len(bents) >= 2:
+        # GPT of the second generation: headers valid, backup in the last sector and mirroring the primary, LBAs and the
+        # first two partitions as the model gives them for the NEW ISO length (Hybrid.gptGeo, theorem gpt_geometry)
+        def num(e, k):
+            return int([x for x in e.split(':') if x.startswith(k)][0][len(k):])
+        iso_len = int(rep.info.get('space', 0)) * 2048
+        ph = decode_gpt_header(img2[512:512 + 92])
+        if ph['sig'] != b'EFI PART' or not ph['hcrc_ok']:
+            viol('C12.gen2/gpt-primary-header', 'second generation: primary GPT header signature/CRC invalid')
+        elif ph['bak'] != len(img2) // 512 - 1 or ph['bak'] * 512 + 92 > len(img2):
+            viol('C12.gen2/gpt-backup-location', 'second generation: primary GPT header names LBA %d as its backup, the last LBA is %d' % (ph['bak'], len(img2) // 512 - 1))
+        else:
+            sh_ = decode_gpt_header(img2[ph['bak'] * 512: ph['bak'] * 512 + 92])
+            arr = img2[ph['plba'] * 512: ph['plba'] * 512 + 3 * 128]
+            if sh_['sig'] != b'EFI PART' or not sh_['hcrc_ok']:
+                viol('C12.gen2/gpt-backup-header', 'second generation: no valid backup GPT header in the last sector')
+            else:
+                if (sh_['cur'], sh_['bak']) != (ph['bak'], ph['cur']) or img2[sh_['plba'] * 512: sh_['plba'] * 512 + 3 * 128] != arr:
+                    viol('C12.gen2/gpt-mirror', 'second generation: backup GPT does not mirror the primary')
+                p0 = struct.unpack_from('<QQ', arr, 32)
+                p1 = struct.unpack_from('<QQ', arr, 128 + 32)
+                got_geo = (ph['cur'], ph['bak'], ph['first'], ph['last'], ph['plba'], sh_['plba']) + p0 + p1
+                want_geo = tuple(int(x) for x in ctx.driver.ask(['gptgeo %d %d %d %d %d %d' % (
+                    iso_len, h_geo, s_geo, num(bents[1], 'rba'), num(bents[1], 'cnt'), 1 if variant == 'mac' else 0)])[0].split())
+                ctx.traces_validated += 1
+                if got_geo != want_geo:
+                    viol('C12.gen2/gpt-geometry', 'second generation: GPT header / partition LBAs %s, expected %s for an ISO of %d bytes' % (got_geo, want_geo, iso_len))
     ctx.count(key=('gen2', len(img2), s_geo, h_geo, variant), nontrivial=True, kind='gen2:' + variant)
 
 
